@@ -361,6 +361,48 @@ def _lookup_writes(tree, cls_name, entry):
     return sorted(set(out))
 
 
+DRV = "scrapli/driver/base/base_driver.py"
+
+
+def _caller_writes(rel, producers=("lookup", "ssh_config_factory")):
+    """in every function of `rel` that calls ssh_config_factory / .lookup: stores through a local name bound to the
+    result of such a call (the SSHConfig object and the Host objects it hands out are SHARED, cached per path)"""
+    tree = _parse(rel)
+    out = []
+    for fn in ast.walk(tree):
+        if not isinstance(fn, (ast.FunctionDef, ast.AsyncFunctionDef)):
+            continue
+        shared = set()
+        for n in ast.walk(fn):
+            if isinstance(n, ast.Assign) and isinstance(n.value, ast.Call):
+                f = n.value.func
+                fname = f.attr if isinstance(f, ast.Attribute) else getattr(f, "id", None)
+                if fname in producers:
+                    shared |= {t.id for t in n.targets if isinstance(t, ast.Name)}
+        if not shared:
+            continue
+        for n in ast.walk(fn):
+            targets = []
+            if isinstance(n, ast.Assign):
+                targets = list(n.targets)
+            elif isinstance(n, (ast.AugAssign, ast.AnnAssign)):
+                targets = [n.target]
+            elif isinstance(n, ast.Delete):
+                targets = list(n.targets)
+            for t in targets:
+                for u in (list(t.elts) if isinstance(t, (ast.Tuple, ast.List)) else [t]):
+                    if isinstance(u, (ast.Attribute, ast.Subscript)) and _root(u) in shared:
+                        out.append(f"{fn.name}:{ast.unparse(u)}")
+            if isinstance(n, ast.Call):
+                f = n.func
+                if isinstance(f, ast.Attribute) and f.attr in MUTATORS and isinstance(f.value, (ast.Attribute, ast.Subscript)) \
+                        and _root(f.value) in shared:
+                    out.append(f"{fn.name}:{ast.unparse(f)}()")
+                if isinstance(f, ast.Name) and f.id in ("setattr", "delattr") and n.args and _root(n.args[0]) in shared:
+                    out.append(f"{fn.name}:{ast.unparse(n)}")
+    return sorted(set(out))
+
+
 def generate():
     tree = _parse(REL)
     attrs = _host_attrs(tree)
@@ -380,6 +422,7 @@ def generate():
     kh = _known_hosts(tree)
     cfg_writes = _lookup_writes(tree, "SSHConfig", "lookup")
     kh_writes = _lookup_writes(tree, "SSHKnownHosts", "lookup")
+    drv_writes = _caller_writes(DRV)
     DATA.clear()
     DATA.update(host_attrs=attrs, defaults=dflt, keywords=kws, fuzzy=fz, star=star, known_hosts=kh)
     b = HEADER.format(src=REL)
@@ -411,5 +454,7 @@ def generate():
     b += "/-- stores that outlive the call on the call graph below SSHConfig.lookup / SSHKnownHosts.lookup (AST) -/\n"
     b += f"def cfgLookupWrites : List String := [{', '.join(lstr(x) for x in cfg_writes)}]\n"
     b += f"def khLookupWrites : List String := [{', '.join(lstr(x) for x in kh_writes)}]\n"
+    b += "/-- stores through the (shared, cached) objects ssh_config_factory / lookup hand out, in base_driver.py -/\n"
+    b += f"def driverLookupWrites : List String := [{', '.join(lstr(x) for x in drv_writes)}]\n"
     b += "end Scrapli.Gen.SSHConfig\n"
     return [(OUT, b)]
